@@ -1,9 +1,104 @@
 import ALV.Common.Json
+import ALV.Model.C01
+import ALV.Spec.C01
+import ALV.Gen.OpTable
 namespace ALV.Driver.C01
-open ALV ALV.J
+open ALV ALV.J ALV.C01
 
-/-- stub: the C01 slice is not built yet -/
-def handle (entry : String) (_j : Json) : Except String Json :=
-  throw s!"C01: unknown entry {entry}"
+def nm (s : String) : Name := s.toList
+def str (n : Name) : Json := Json.str (String.ofList n)
+
+partial def termJson : Term → Json
+  | .atom i => Json.int i
+  | .app f args => Json.arr (str f :: args.map termJson)
+
+def getTerm (j : Json) : Except String Term := do
+  let i ← getNat j
+  pure (.atom i)
+
+/-- program tree: {"k": kind, ...} -/
+partial def getPy (j : Json) : Except String Py := do
+  let k ← getStr (← field j "k")
+  match k with
+  | "scalar" => pure (.scalar (← getTerm (← field j "c")))
+  | "ignored" => pure (.ignored (← getTerm (← field j "c")))
+  | "iterable" =>
+    let xs ← getList getTerm (← field j "xs")
+    let t ← getNat (← field j "tag")
+    pure (.iterable t xs)
+  | "stream1" => pure (.stream1 (← getPy (← field j "a")))
+  | "stream2" => pure (.stream2 (← getPy (← field j "a")) (← getPy (← field j "b")))
+  | "un" => pure (.un (nm (← getStr (← field j "d"))) (← getPy (← field j "s")))
+  | "bin" => pure (.bin (nm (← getStr (← field j "d"))) (← getPy (← field j "s")) (← getPy (← field j "o")))
+  | "meth" => pure (.meth (nm (← getStr (← field j "l"))) (← getPy (← field j "s")))
+  | "append" => pure (.append (← getPy (← field j "s")) (← getPy (← field j "o")))
+  | _ => throw s!"C01: unknown node kind {k}"
+
+def errName : Err → String
+  | .typeError => "TypeError"
+  | .attributeError => "AttributeError"
+  | .notImplemented => "NotImplemented"
+  | .notAStream => "NotAStream"
+
+def lenJson : Len → Json
+  | .fin n => Json.int n
+  | .inf => Json.str "inf"
+
+def sortName : Option Sort' → String
+  | none => "none"
+  | some .scalar => "scalar"
+  | some .ignored => "ignored"
+  | some .iter => "iter"
+  | some .stream => "stream"
+
+def unreadJson (u : List (Nat × Nat)) : Json := arr (fun (p : Nat × Nat) => Json.arr [Json.int p.1, Json.int p.2]) u
+
+def installed : Option (List (Name × Dunder)) := install ALV.Gen.OpTable.table
+
+def builderName : Builder → String
+  | .unary => "unary" | .binary => "binary" | .rbinary => "rbinary"
+
+def handle (entry : String) (j : Json) : Except String Json := do
+  match entry with
+  | "expr" =>
+    let p ← getPy (← field j "prog")
+    let n ← getNat (← field j "n")
+    -- model: class built from the regenerated table, evaluation, then `n` calls of next at most
+    let model : Json :=
+      match installed with
+      | none => Json.mkObj [("err", Json.str "ClassCreationFails")]
+      | some tbl =>
+        match evalPy tbl p with
+        | .error e => Json.mkObj [("err", Json.str (errName e))]
+        | .ok (.iterable isS it) =>
+          let r := it.runS n
+          Json.mkObj [("kind", Json.str (if isS then "stream" else "iter")),
+                      ("items", arr termJson r.1),
+                      ("unread0", unreadJson it.unread),
+                      ("unread", unreadJson r.2.unread)]
+        | .ok (.scalar c) => Json.mkObj [("kind", Json.str "scalar"), ("value", termJson c)]
+        | .ok (.ignored c) => Json.mkObj [("kind", Json.str "ignored"), ("value", termJson c)]
+    -- spec: pointwise reading of the expression
+    let so := p.sort
+    let l := p.len
+    let cnt := match l with | .fin L => Nat.min n L | .inf => n
+    let items := (List.range cnt).filterMap p.at
+    let spec := Json.mkObj [("sort", Json.str (sortName so)), ("len", lenJson l), ("items", arr termJson items)]
+    pure <| Json.mkObj [("model", model), ("spec", spec)]
+  | "optable" =>
+    -- model: OpMethod entries and installed dunders; spec: the hand-written table
+    let ops := initializeOps ALV.Gen.OpTable.table
+    let opsJ := arr (fun (o : OpMethod) => Json.mkObj [
+        ("name", str o.name), ("symbol", str o.symbol), ("rev", Json.bool o.rev),
+        ("dname", str o.dname), ("arity", Json.int o.arity), ("func", str o.func)]) ops
+    let instJ : Json := match installed with
+      | none => Json.null
+      | some tbl => arr (fun (kv : Name × Dunder) => Json.mkObj [
+          ("dname", str kv.1), ("builder", Json.str (builderName kv.2.builder)), ("func", str kv.2.func)]) tbl
+    let specJ := arr (fun (sp : DunderSpec) => Json.mkObj [
+        ("dname", str sp.dname), ("builder", Json.str (builderName sp.builder)), ("func", str sp.fn),
+        ("base", str sp.base), ("reflected", Json.bool sp.reflected), ("arity", Json.int sp.arity)]) specTable
+    pure <| Json.mkObj [("model", Json.mkObj [("ops", opsJ), ("installed", instJ)]), ("spec", specJ)]
+  | _ => throw s!"C01: unknown entry {entry}"
 
 end ALV.Driver.C01
